@@ -138,9 +138,12 @@ def eval_case(case):
                     return starts[d]["env"]["COND_OUT"]
                 return where_before.get(d)
 
-            if conflict_active and conflict_active["kind"] in ("file", "dir") and nonempty_dir(expected(conflict_active["dep"]) or ""):
+            if conflict_active and conflict_active["kind"] in ("file", "dir", "foreign-symlink") and nonempty_dir(expected(conflict_active["dep"]) or ""):
                 bump("c18_conflict_checks")
                 if realrun.tree_hash(conflict_active["entry"]) != conflict_active["hash"]:
+                    if conflict_active["kind"] == "foreign-symlink":
+                        out["violations"].append({"key": "C18:link-that-conductor-did-not-make-replaced", "msg": "a symbolic link the user made at %s (to a directory outside cond-out) was silently replaced by combine (exit %s)" % (conflict_active["entry"], r.code), "witness": W})
+                        break
                     out["violations"].append({"key": "C18:non-link-entry-overwritten", "msg": "pre-existing %s at %s was modified/replaced by combine" % (conflict_active["kind"], conflict_active["entry"]), "witness": W})
                     break
                 if r.code == 0 or "already exists and cannot be overwritten" not in (r.out + r.err):
@@ -150,6 +153,10 @@ def eval_case(case):
                     out["violations"].append({"key": "C18:conflict-traceback", "msg": "conflict produced a traceback: %s" % r.err[-300:], "witness": W})
                 break
             if r.code != 0:
+                if not conflict_active and "cannot be overwritten by the combine() task" in (r.out + r.err):
+                    # nothing was put in combine's way: it refused an entry that Conductor itself had made earlier
+                    out["violations"].append({"key": "C18:combine-refuses-its-own-entry", "msg": "cond %s failed with a combine conflict although nothing but Conductor touched the combine output: %s" % (" ".join(argv), r.err[-300:]), "witness": W})
+                    break
                 out["inconclusive"].append({"why": "cond run failed where every task succeeds", "detail": cli.brief(r)})
                 break
             nexp = 0
@@ -158,7 +165,7 @@ def eval_case(case):
                 if exp is None or not nonempty_dir(exp):
                     continue
                 if conflict_active and conflict_active["dep"] == d:
-                    continue  # a foreign symlink is replaced like Conductor's own links (indistinguishable)
+                    continue  # judged above
                 nexp += 1
                 ent = os.path.join(cout, gen.split_tid(d)[1])
                 bump("c18_entry_checks")
@@ -189,7 +196,7 @@ def eval_case(case):
 
 def main(tier, n=None):
     rep = common.Report(PROP, tier, "exploration", RULE)
-    rep.assumptions = ["entries for dependencies whose output directory is empty or absent are don't-care", "a pre-existing symlink is replaced (it cannot be told apart from a link Conductor made)"]
+    rep.assumptions = ["entries for dependencies whose output directory is empty or absent are don't-care", "a link Conductor made = a symbolic link whose target is a task output directory (<name>.task[.<version>]) below cond-out; any other pre-existing entry, including a symbolic link to somewhere else, must be reported and left alone"]
     rng = common.rng_for("c18", common.base_seed())
     total = n or (400 if tier == "quick" else 4000)
     cases = [gen_case(rng) for _ in range(total)]
